@@ -8,7 +8,7 @@ RULE = (
     "{vacuum, temperature, pressure, small pressure, p=0} x membrane with random Arrhenius experiments (ideal kinds) or a "
     "synthetic composition-/temperature-dependent curve set with fit orders 0..1, optional initial permeances in any unit "
     "(non-ideal kinds) x area 1e-3..1e2 m2 x feed 1e-2..1e3 kg x composition as mass or mole fraction x 1..30 steps whose "
-    "length is chosen so that the first step removes 1e-5..3e-2 of the feed x optional polynomial / exponential / "
+    "length is chosen so that the first step removes 1e-5..3e-2 (8 %: 1e-12..1e-8) of the feed, plus one ideal run of 1001..2300 steps per shard x optional polynomial / exponential / "
     "logarithmic programme. Every returned model is checked step by step, and re-run with one more step (prefix "
     "consistency decides the last step). non-trivial = the call returned with >= 2 steps; distinct = distinct inputs"
 )
@@ -20,11 +20,13 @@ SHARD_TIMEOUT = {"quick": 1500, "thorough": 14000}
 
 
 def shards(tier, seed):
-    ni, nn = {"quick": (50, 8), "thorough": (2500, 200)}[tier]
-    return [{"n_ideal": ni, "n_nonideal": nn} for _ in range(16)]
+    ni, nn, nl = {"quick": (50, 8, 1), "thorough": (2500, 200, 12)}[tier]
+    return [{"n_ideal": ni, "n_nonideal": nn, "n_long": nl} for _ in range(16)]
 
 
 def cases(spec):
+    for i in range(spec.get("n_long", 0)):
+        yield 200000 + i, proc.KINDS[:2]
     for i in range(spec["n_ideal"]):
         yield i, proc.KINDS[:2]
     for i in range(spec["n_nonideal"]):
@@ -40,6 +42,12 @@ def run_shard(spec, rep):
             break
         rng = gen.case_rng(PROP, spec["seed"], spec["shard"], index)
         sc = proc.Scenario(rng, kinds=kinds)
+        if index >= 200000:
+            # a long run: more than a thousand steps (step-count dependent maintenance code, accumulated drift)
+            sc.n = rng.randint(1001, 2300)
+            if sc.dt is not None:
+                sc.dt = sc.dt * min(1.0, 0.5 / (sc.n * sc.f0))
+            sc.precision = gen.loguniform(rng, 1e-5, 1e-3)
         case = dict(sc.describe(), index=index)
         status, model = sc.run()
         rep.count("runs_" + status)
